@@ -81,7 +81,10 @@ def aliased(new: Any, old: Any) -> bool:
                     before = b.tobytes()
                     keep = a.copy()
                     try:
-                        a += np.ones((), dtype=a.dtype) if a.dtype.kind != "b" else True
+                        if a.dtype.kind == "b":
+                            np.logical_not(a, out=a)      # (adding True would leave an all-True array unchanged)
+                        else:
+                            a += np.ones((), dtype=a.dtype)
                         seen = b.tobytes() != before
                     finally:
                         a[...] = keep
@@ -143,7 +146,8 @@ def receivers() -> Dict[str, Callable[[], Any]]:
     ttb = bind.ttb
 
     def dense():
-        return ttb.tensor(np.array([1., 0, 3, 4, 0, 6, 7, 8, 0, 10, 11, 12]).reshape((2, 3, 2), order="F"))
+        # built through bind.g_dense: the array layout presentation applies (incl. the tensor completed by assignment)
+        return bind.g_dense({"shape": [2, 3, 2], "v": [1, 0, 3, 4, 0, 6, 7, 8, 0, 10, 11, 12]})
 
     def cube():
         return ttb.tensor(np.array([1., 2, 2, 0, 2, 0, 0, 5]).reshape((2, 2, 2), order="F"))
@@ -218,7 +222,7 @@ def ops() -> Dict[str, Tuple[Tuple[str, ...], Callable]]:
     add("to_tensor", ("sparse", "ktensor", "ttensor", "sum", "tenmat"), lambda o, m: o.to_tensor())
     add("double", ("dense", "sparse", "ktensor", "ttensor", "sum", "tenmat", "sptenmat"), lambda o, m: o.double())
     add("to_sptensor", ("dense", "sptenmat"), lambda o, m: o.to_sptensor())
-    add("find", ("dense",), lambda o, m: o.find())
+    add("find", DS, lambda o, m: o.find())
     add("to_tenmat", ("dense", "ktensor"), lambda o, m: o.to_tenmat(m.idx([0])))
     add("to_tenmat_rc", ("dense",), lambda o, m: o.to_tenmat(m.idx(list(range(1, N(o)))), m.idx([0])))
     add("to_sptenmat", ("sparse",), lambda o, m: o.to_sptenmat(m.idx([0])))
